@@ -84,6 +84,10 @@ structure Twin (K V : Type) where
   absent : Val K V
   /-- record the trace of atomic actions (`W.ev`, `W.atomic`); the non-tracing twins leave both fields alone -/
   trace : Bool := false
+  /-- the entries the underlying map's `Range` hands to its visitor, given the map's content when the traversal
+  starts.  Sequentially: the content itself (`id`).  Under concurrency the map may hand over other pairs (C07 at map
+  level says which); the cache-level theorems about `Range` under concurrency instantiate this field. -/
+  handed : AMap K (Item V) → List (K × Item V) := id
 
 variable {K V : Type} [DecidableEq K] [Inhabited V]
 
@@ -497,7 +501,7 @@ mutual
         | none => some ([T.absent, .bool false], emit T w .mapOther)
       | .Delete, [.key k] => some ([], emit T { w with items := w.items.erase k } .mapOther)
       | .Range, [f] =>
-        (loopItems (fun args w1 => callVal T (hide fuel) f args (emitVisit T w1 args)) w.items w).map fun w' => ([], w')
+        (loopItems (fun args w1 => callVal T (hide fuel) f args (emitVisit T w1 args)) (T.handed w.items) w).map fun w' => ([], w')
       | .Clear, [] => some ([], emit T { w with items := [] } .clear)
       | .Size, [] => some ([.int w.items.size], emit T w .size)
       | _, _ => none
